@@ -94,6 +94,9 @@ def r2(p, rep):
                         if rr and rr[0] == "func" and any(norm(a) == star for a in c.args):
                             hp = rr[1].params[[norm(a) for a in c.args].index(star)]
                             cond += " :: " + " ".join(norm(st) for st in rr[1].node.body).replace(f"{hp}[1:]", f"{star}[1:]")
+                        elif rr and rr[0] == "func" and any(f"{star}[1:]" in norm(a) for a in c.args):
+                            # the helper is handed the coordinates / updates only
+                            cond += " :: " + " ".join(norm(st) for st in rr[1].node.body)
             ok2 = f"{star}[1:]" in cond and "== 0" in cond
             rep.add("C14.R2", f"{f.qualname}:shortcut-returns", f"{f.module.rel}:{r.lineno}", ok, f"returns {norm(r.value)}")
             rep.add("C14.R2", f"{f.qualname}:shortcut-condition", f"{f.module.rel}:{r.lineno}", ok2, f"taken when a zero length occurs in {star}[1:] (coordinates / updates): {cond[:120]}")
